@@ -588,3 +588,120 @@ Section Dispatch.
       rewrite Hj, Hdec. reflexivity.
   Qed.
 End Dispatch.
+
+(* ======================================================================== *)
+(* E. one savefile line                                                        *)
+(* ======================================================================== *)
+(* the state keeps its shape under every accepted message *)
+Lemma val_at_map_seq : forall (f : nat -> value) n q, (q < n)%nat -> val_at (map f (seq 0 n)) q = f q.
+Proof. exact map_seq_nth. Qed.
+
+Lemma shaped_commit : forall a s i k v',
+  wf_app a -> shaped a s -> (i < length a)%nat -> shaped a (commit a s i k v').
+Proof.
+  intros a s i k v' WF [Hlen Hsh] Hi. unfold commit.
+  set (st1 := upd s i (upd (val_at s i) k v')).
+  assert (S1 : shaped a st1).
+  { split; [unfold st1; rewrite upd_length; exact Hlen|].
+    intros q Hq Hnd. unfold st1. rewrite val_at_upd by lia.
+    destruct (Nat.eq_dec q i) as [->|]; [rewrite upd_length|]; apply Hsh; assumption. }
+  set (st2 := if is_selector a i then reset_dependents a i st1 else st1).
+  assert (S2 : shaped a st2).
+  { unfold st2. destruct (is_selector a i); [|exact S1]. destruct S1 as [L1 Sh1].
+    split; [unfold reset_dependents; rewrite map_length, seq_length; reflexivity|].
+    intros q Hq Hnd. unfold reset_dependents. rewrite val_at_map_seq by assumption.
+    destruct (p_sel (port_at a q)) as [s'|]; [|apply Sh1; assumption].
+    destruct (Nat.eqb s' i); [|apply Sh1; assumption].
+    unfold default_of. apply (w_shape a WF q Hq). }
+  destruct (is_enabler a i && negb (is_on (val_at s i)) && is_on (val_at st2 i)); [|exact S2].
+  destruct S2 as [L2 Sh2].
+  split; [unfold allocate; rewrite map_length, seq_length; reflexivity|].
+  intros q Hq Hnd. unfold allocate. rewrite val_at_map_seq by assumption.
+  destruct (mem_nat i (p_hard (port_at a q))); [|apply Sh2; assumption].
+  unfold initial_of. rewrite Hnd. apply (w_shape a WF q Hq).
+Qed.
+
+Lemma shaped_set_elem : forall a s i k v s',
+  wf_app a -> shaped a s -> (i < length a)%nat -> set_elem a s i k v = Some s' -> shaped a s'.
+Proof.
+  intros a s i k v s' WF Hs Hi H. rewrite set_elem_commit in H.
+  destruct (k <? p_len (port_at a i))%nat; [|discriminate].
+  destruct (store (port_at a i) v) as [v'|]; [|discriminate].
+  destruct (exists_ a s i); [|discriminate]. inversion H; subst. apply shaped_commit; assumption.
+Qed.
+
+Lemma shaped_initial : forall a, wf_app a -> shaped a (initial a).
+Proof.
+  intros a WF. split; [unfold initial; rewrite map_length, seq_length; reflexivity|].
+  intros i Hi Hnd. rewrite val_at_initial by assumption. unfold initial_of. rewrite Hnd.
+  apply (w_shape a WF i Hi).
+Qed.
+
+Section Line.
+  Variable hp : list sport -> list Z * list Z.
+  Variable tid : list sport -> Z.
+  Variable t : list pt.
+  Local Notation A := (app_of_tree t).
+
+  (* dispatch_printed_messages hands a line out as one message, an array line
+     ("[v0 v1 ...]") element by element at "path<idx>" *)
+  Fixpoint tree_elems (path : str) (k : nat) (vs : value) (s : state) : option state :=
+    match vs with
+    | [] => Some s
+    | v :: r => match tree_dispatch hp tid t (path ++ dec (Z.of_nat k)) v s with
+                | Some s' => tree_elems path (S k) r s'
+                | None => None
+                end
+    end.
+  Definition tree_apply_line (l : line) (s : state) : option state :=
+    if l_array l then tree_elems (l_path l) 0 (l_vals l) s
+    else match l_vals l with [v] => tree_dispatch hp tid t (l_path l) v s | _ => None end.
+
+  Hypothesis Hnames : names_ok (sports_of t) = true.
+  Hypothesis Htree : tree_ok (to_tree hp tid (sports_of t)).
+  Hypothesis Hwf : Forall pt_wf t.
+  Hypothesis WF : wf_app A.
+
+  (* a line for port i whose values the port's argument specification accepts
+     (what save_lines produces, C12_line_ok below) *)
+  Definition line_for (i : nat) (l : line) : Prop :=
+    (i < length A)%nat /\ l_path l = p_path (port_at A i) /\ l_array l = p_array (port_at A i) /\
+    p_nodef (port_at A i) = false /\
+    (length (l_vals l) <= p_len (port_at A i))%nat /\
+    Forall (fun v => arg_wf v /\ store (port_at A i) v <> None) (l_vals l).
+
+  Lemma tree_elems_spec : forall i vs k s,
+    (i < length A)%nat -> p_array (port_at A i) = true -> p_nodef (port_at A i) = false ->
+    (k + length vs <= p_len (port_at A i))%nat ->
+    Forall (fun v => arg_wf v /\ store (port_at A i) v <> None) vs -> shaped A s ->
+    tree_elems (p_path (port_at A i)) k vs s = apply_elems A i k vs s.
+  Proof.
+    intros i vs. induction vs as [|v r IH]; intros k s Hi Ha Hnd Hk Hvs Hs; [reflexivity|].
+    inversion Hvs as [|? ? [Hv Hst] Hr]; subst. cbn [length] in Hk. cbn [tree_elems apply_elems].
+    assert (Eaddr : p_path (port_at A i) ++ dec (Z.of_nat k) = elem_addr (port_at A i) k)
+      by (unfold elem_addr; rewrite Ha; reflexivity).
+    rewrite Eaddr.
+    assert (Hk' : (k < p_len (port_at A i))%nat) by lia.
+    rewrite (dispatch_elem hp tid t Hnames Htree Hwf (w_paths A WF) i k v s Hi Hk' Hnd Hv Hst Hs).
+    destruct (set_elem A s i k v) as [s'|] eqn:E; [|reflexivity].
+    apply IH; try assumption; [lia|]. eapply shaped_set_elem; eassumption.
+  Qed.
+
+  Theorem dispatch_line : forall i l s,
+    line_for i l -> shaped A s -> tree_apply_line l s = apply_line A l s.
+  Proof.
+    intros i l s (Hi & Hp & Ha & Hnd & Hlen & Hvs) Hs.
+    unfold tree_apply_line, apply_line. rewrite Hp.
+    rewrite (find_port_at A i (w_paths A WF) Hi). rewrite Ha, Bool.eqb_reflx.
+    destruct (p_array (port_at A i)) eqn:Ea.
+    - apply tree_elems_spec; assumption.
+    - destruct (l_vals l) as [|v [|w r]]; try reflexivity.
+      inversion Hvs as [|? ? [Hv Hst] _]; subst.
+      assert (Eaddr : p_path (port_at A i) = elem_addr (port_at A i) 0)
+        by (unfold elem_addr; rewrite Ea; reflexivity).
+      rewrite Eaddr.
+      assert (H0 : (0 < p_len (port_at A i))%nat) by (apply (w_shape A WF i Hi)).
+      exact (dispatch_elem hp tid t Hnames Htree Hwf (w_paths A WF) i 0 v s Hi H0 Hnd Hv Hst Hs).
+  Qed.
+
+End Line.
